@@ -34,6 +34,11 @@ Theorem C03_wall_normal_outward : forall az w ex ey, ex == w * fst az -> ey == w
   veq (vscale w (wall_normal az)) (mkV ey (- ex) 0).
 Proof. exact wall_normal_outward. Qed.
 
+Theorem C03_rect_shade_turns : forall dev e az tilt origin w h,
+  Forall2 veq (rect_shade_corners (compose dev e) az tilt origin w h)
+              (map (rotz (cw e)) (rect_shade_corners dev az tilt origin w h)).
+Proof. exact rect_shade_turns. Qed.
+
 Theorem C03_turns_compose : forall a b p, veq (rotz a (rotz b p)) (rotz (compose a b) p).
 Proof. exact rotz_compose. Qed.
 
